@@ -58,6 +58,48 @@ func init() {
 	})
 
 	core.Register(&core.Rule{
+		Name: "R-STATERET",
+		Doc: "No result of a public search method is memory of the pooled per-search state: for every root (exported method of coregex.Regex and meta.Engine, and the iterator closures they return) every pointer-like result (slice, pointer, map, struct holding them) has an ownership class other than STATE under the root context. Per-search state goes back to the pool when the method returns (deferred put), so a result that aliases it - capture index slices cut out of the one-pass cache's slot array instead of copied - is overwritten by the next search of any goroutine while the caller still reads it. Necessary for C06 (concurrent calls return the sequential results), C13 and C03.",
+		Min: 40, NeedSSA: true,
+		Run: func(p *core.Prog) *core.RuleResult {
+			res := &core.RuleResult{}
+			a := OwnAnalysis(p)
+			rets := a.RootRets()
+			var fns []*ssa.Function
+			for fn := range rets {
+				fns = append(fns, fn)
+			}
+			sort.Slice(fns, func(i, j int) bool { return core.FuncName(fns[i]) < core.FuncName(fns[j]) })
+			for _, fn := range fns {
+				r := fn.Signature.Results()
+				for i := 0; i < r.Len(); i++ {
+					if !pointerLike(r.At(i).Type(), 0) {
+						continue
+					}
+					o := core.Obligation{Key: "R-STATERET|" + core.FuncName(fn) + "|result " + fmt.Sprint(i), Pos: p.Pos(fn.Pos()), Nontrivial: true}
+					switch {
+					case i >= len(rets[fn]):
+						o.Status = core.Undecided
+						o.Detail = "no result class computed"
+					case rets[fn][i].C == own.STATE:
+						o.Status = core.Violated
+						o.Detail = fmt.Sprintf("the result may be memory of the pooled per-search state (%s): it is handed back to the pool when the method returns and rewritten by the next search while the caller still holds it", rets[fn][i].Path)
+					case deepStateKey(a, r.At(i).Type(), 0) != "":
+						k := deepStateKey(a, r.At(i).Type(), 0)
+						o.Status = core.Violated
+						o.Detail = fmt.Sprintf("memory reachable from the result (%s) may belong to the pooled per-search state (%s): it is handed back to the pool when the method returns and rewritten by the next search while the caller still holds it", k, a.ContentWhy(k))
+					default:
+						o.Status = core.Discharged
+						o.Detail = "result class " + rets[fn][i].C.String()
+					}
+					res.Obligations = append(res.Obligations, o)
+				}
+			}
+			return res
+		},
+	})
+
+	core.Register(&core.Rule{
 		Name: "R-EXPAND",
 		Doc: "Template expansion reads what distinguishes templates: an expander is a function of the root package that takes a match-index slice ([]int) and at least two byte sequences and looks for '$' in one of them. Its family (the expander and the module functions it calls) must (1) reach the capture-name table (SubexpNames/SubexpIndex): for (?P<a>x)(?P<b>y) the templates $a and $b need different output and nothing else distinguishes them; (2) test for the closing brace '}' as well as the opening one: ${1}0 and ${10} differ only there; (3) accumulate a multi-digit group number (a multiplication by 10 or a strconv call inside the family): $1 and $10 name different groups. Necessary for C08 ($name, ${name}, multi-digit $10).",
 		Min: 3, NeedSSA: true,
@@ -174,4 +216,65 @@ func init() {
 			return res
 		},
 	})
+}
+
+
+// pointerLike: values of the type can reference memory (slice, pointer, map, chan, func, interface, or a struct/array holding one).
+func pointerLike(t types.Type, depth int) bool {
+	if depth > 4 {
+		return false
+	}
+	switch u := t.Underlying().(type) {
+	case *types.Slice, *types.Pointer, *types.Map, *types.Chan, *types.Signature, *types.Interface:
+		return true
+	case *types.Struct:
+		for i := 0; i < u.NumFields(); i++ {
+			if pointerLike(u.Field(i).Type(), depth+1) {
+				return true
+			}
+		}
+	case *types.Array:
+		return pointerLike(u.Elem(), depth+1)
+	}
+	return false
+}
+
+
+// deepStateKey: a memory cell reachable from a value of type t (fields of freshly built structs, elements of slices)
+// whose recorded content class is STATE; "" if none. Content is keyed by field and by element type (see package own).
+func deepStateKey(a *own.Analysis, t types.Type, depth int) string {
+	if depth > 3 {
+		return ""
+	}
+	content := a.Content()
+	switch u := t.Underlying().(type) {
+	case *types.Pointer:
+		return deepStateKey(a, u.Elem(), depth+1)
+	case *types.Slice:
+		if pointerLike(u.Elem(), 0) {
+			k := "elem:" + core.TypeName(u.Elem())
+			if content[k] == own.STATE {
+				return k
+			}
+			return deepStateKey(a, u.Elem(), depth+1)
+		}
+	case *types.Struct:
+		if n, ok := t.(*types.Named); ok && !a.P.InModule(n.Obj().Pkg()) {
+			return ""
+		}
+		for i := 0; i < u.NumFields(); i++ {
+			f := u.Field(i)
+			if !pointerLike(f.Type(), 0) {
+				continue
+			}
+			k := "field:" + core.TypeName(t) + "." + f.Name()
+			if content[k] == own.STATE {
+				return k
+			}
+			if r := deepStateKey(a, f.Type(), depth+1); r != "" {
+				return r
+			}
+		}
+	}
+	return ""
 }
